@@ -1,7 +1,7 @@
 #!/usr/bin/env bash
 # Builds the Coq development (full .vo build) from files on disk. Offline.
 set -euo pipefail
-cd /verif/coq
+cd "${VERIF_HOME:-/verif}/coq"
 coq_makefile -f _CoqProject -o Makefile.coq >/dev/null
-timeout 3000 make -f Makefile.coq -j16 >/verif/coq/build.log 2>&1 || { tail -50 /verif/coq/build.log; exit 1; }
+timeout 3000 make -f Makefile.coq -j16 >build.log 2>&1 || { tail -50 build.log; exit 1; }
 echo "coq build ok"
